@@ -240,3 +240,74 @@ theorem C07_all_exactly_once (fi : Nat) (f : FileD) :
   refine ⟨by simp [List.map_reverse, Function.comp_def], fileF_nodup fi f⟩
 
 end Pgs.AST
+
+/-! ### other entry points: a message, an enum, a service -/
+namespace Pgs.AST
+
+/-- the contents of a message as a forest (what `msgsF` hangs below the message's node) -/
+def msgKidsF (fi : Nat) (here : List Nat) (h : MsgHead) (nested : Msgs) : Forest :=
+  (enumsF fi here 4 0 h.enums).append ((msgsF fi here 3 0 nested).append
+    ((leavesF (childRefs fi here 2 h.fields.length)).append
+      ((leavesF (childRefs fi here 8 h.oneofs.length)).append (leavesF (childRefs fi here 6 h.exts.length)))))
+
+theorem msgAt_path (w : World) (r : Ref) (x : MsgHead × Msgs) (h : w.msgAt r = some x) : ∃ rest, r.path = 4 :: rest := by
+  unfold World.msgAt at h
+  split at h
+  · rename_i f rest _ hp; exact ⟨rest, hp⟩
+  · simp at h
+
+/-- `Walk(v, message)`: the generic walk over the message's node and contents (through
+    `PassThroughVisitor`: over its contents). -/
+theorem C07_walk_msg (pol : Policy) (w : World) (start : Ref) (f : FileD) (h : MsgHead) (nested : Msgs)
+    (hf : w.files[start.file]? = some f) (hfi : start.file < 900000) (hm : w.msgAt start = some (h, nested)) :
+    walkFrom pol w start false = walkForest pol 0 (.node start (msgKidsF start.file start.path h nested) .nil) ⟨[], none⟩ ∧
+    walkFrom pol w start true = walkForest pol 0 (msgKidsF start.file start.path h nested) ⟨[], none⟩ := by
+  obtain ⟨rest, hrest⟩ := msgAt_path w start _ hm
+  have hge : ¬ (start.file ≥ 900000) := by omega
+  constructor
+  · unfold walkFrom
+    simp only [hge, if_false, hf]
+    split
+    · rename_i hp; rw [hrest] at hp; simp at hp
+    · rename_i hp; rw [hrest] at hp; simp at hp
+    · rename_i hp; rw [hrest] at hp; simp at hp
+    · simp only [hm, Bool.false_eq_true, if_false, walkForest]
+      cases hv : visit pol 0 start ⟨[], none⟩ with
+      | mk ws1 o =>
+        cases o with
+        | none => simp
+        | some v1 => simp [msgKidsF, walkForest_append, acceptEnums_eq, acceptMsgs_eq, acceptLeaves_eq]
+  · unfold walkFrom
+    simp only [hge, if_false, hf]
+    split
+    · rename_i hp; rw [hrest] at hp; simp at hp
+    · rename_i hp; rw [hrest] at hp; simp at hp
+    · rename_i hp; rw [hrest] at hp; simp at hp
+    · simp [hm, msgKidsF, walkForest_append, acceptEnums_eq, acceptMsgs_eq, acceptLeaves_eq]
+
+/-- `Walk(v, file-level enum)` and `Walk(v, service)`: a node with its leaves -/
+theorem C07_walk_enum (pol : Policy) (w : World) (fi i : Nat) (f : FileD) (e : EnumD)
+    (hf : w.files[fi]? = some f) (hfi : fi < 900000) (he : f.enums[i]? = some e) :
+    walkFrom pol w ⟨fi, [5, i]⟩ false =
+      walkForest pol 0 (.node ⟨fi, [5, i]⟩ (leavesF (childRefs fi [5, i] 2 e.values.length)) .nil) ⟨[], none⟩ := by
+  have hge : ¬ (fi ≥ 900000) := by omega
+  simp only [walkFrom, hge, if_false, hf, he, Bool.false_eq_true, walkForest]
+  cases hv : visit pol 0 ⟨fi, [5, i]⟩ ⟨[], none⟩ with
+  | mk ws1 o =>
+    cases o with
+    | none => simp
+    | some v1 => simp [acceptLeaves_eq]
+
+theorem C07_walk_service (pol : Policy) (w : World) (fi i : Nat) (f : FileD) (s : ServiceD)
+    (hf : w.files[fi]? = some f) (hfi : fi < 900000) (hs : f.services[i]? = some s) :
+    walkFrom pol w ⟨fi, [6, i]⟩ false =
+      walkForest pol 0 (.node ⟨fi, [6, i]⟩ (leavesF (childRefs fi [6, i] 2 s.methods.length)) .nil) ⟨[], none⟩ := by
+  have hge : ¬ (fi ≥ 900000) := by omega
+  simp only [walkFrom, hge, if_false, hf, hs, Bool.false_eq_true, walkForest]
+  cases hv : visit pol 0 ⟨fi, [6, i]⟩ ⟨[], none⟩ with
+  | mk ws1 o =>
+    cases o with
+    | none => simp
+    | some v1 => simp [acceptLeaves_eq]
+
+end Pgs.AST
